@@ -26,8 +26,9 @@ ASSUMPTIONS = [
     "decision structure, the repeat loop and CombinedPValue are real",
     "threshold comparisons within 1e-9 relative are accepted either way unless "
     "the tie is structural (one p-value, or p-values equal to the level)",
-    "a sub-test, once it has appeared, appears in every later run of its test "
-    "(scripts never drop a named p-value)",
+    "a sub-test that is absent from a run keeps its p-values and its state "
+    "(scripts drop decided sub-tests from some runs, rarely an undecided one: "
+    "known finding F9)",
     "end-to-end clauses are statistical statements sampled over seeds; sizes "
     "and tests for the weak generators are the documented ones",
 ]
@@ -100,6 +101,7 @@ class ModelTest:
     self.states = {}       # name -> admissible set after the last run
     self.runs = 0
     self.finished = {False}
+    self.stale_undecided = False
 
   def run(self, result):
     """result: list of (name, p) or 'insufficient'. Returns admissible
@@ -110,14 +112,22 @@ class ModelTest:
       return self.finished
     undecided_possible = False
     undecided_certain = False
+    present = set()
     for name, p in result:
+      present.add(name)
       self.pvals.setdefault(name, []).append(p)
       adm, _ = classify(self.pvals[name], self.fail, self.repeat)
       self.states[name] = adm
+    # a sub-test that is absent from this run keeps its p-values and hence its
+    # state; "repeated while undecided" ranges over every sub-test seen so far
+    self.stale_undecided = False
+    for name, adm in self.states.items():
       if "UNDECIDED" in adm:
         undecided_possible = True
         if len(adm) == 1:
           undecided_certain = True
+          if name not in present:
+            self.stale_undecided = True
     if self.runs < self.min_rep or undecided_certain:
       self.finished = {False}
     elif undecided_possible:
@@ -178,6 +188,8 @@ def _gen_test_script(r, fail, repeat, rounds, decisive_after):
   style = r.choice(["float", "npfloat", "int_ok"]) if nsub == 0 else "named"
   script = []
   insufficient_at = r.randint(0, 3) if r.random() < 0.12 else None
+  shadow = ModelTest(fail, repeat, 1)   # decides which names may be dropped
+  droppy = nsub >= 2 and r.random() < 0.35
   for k in range(rounds):
     dec = k >= decisive_after
     if insufficient_at is not None and k == insufficient_at:
@@ -190,11 +202,21 @@ def _gen_test_script(r, fail, repeat, rounds, decisive_after):
       lst = []
       for nm in names:
         if k >= appear[nm]:
+          adm = shadow.states.get(nm)
+          if droppy and adm is not None and k < rounds - 2:
+            # a sub-test may be absent from a run (e.g. the excursion p-values
+            # of the random walk test): mostly decided ones, rarely an
+            # undecided one (finding F9)
+            if len(adm) == 1 and "UNDECIDED" not in adm and r.random() < 0.3:
+              continue
+            if adm == {"UNDECIDED"} and r.random() < 0.04:
+              continue
           lst.append([nm, _script_p(r, fail, repeat, k, dec)])
       if not lst:
         lst.append([names[0], _script_p(r, fail, repeat, k, dec)])
         appear[names[0]] = min(appear[names[0]], k)
       script.append({"named": lst})
+      shadow.run([(nm, p) for nm, p in lst])
   return {"name": "Stub%s" % r.choice(["Alpha", "Beta", "Gamma", "Delta",
                                         "Frequency", "Find"]),
           "params": r.choice([[], [], [7], [3, 4]]), "script": script}
@@ -365,10 +387,13 @@ def _subject(plan):
 # ----------------------------------------------------------------------------
 
 
-def _v(invariant, step, key, msg, detail=None):
+def _v(invariant, step, key, msg, detail=None, known=None):
   return {"property": PROPERTY, "invariant": invariant, "step": step,
-          "key": "%s:%s" % (invariant, key), "known": None, "message": msg,
+          "key": "%s:%s" % (invariant, key), "known": known, "message": msg,
           "detail": detail or {}}
+
+
+F9 = "stale_undecided_absent_subtest"
 
 
 def scripted_entry(tscript, k):
@@ -460,6 +485,7 @@ def judge_driver(plan, res):
     runs = {j: 0 for j in active}
     ambiguous = False
     faulted = False
+    f9_hit = False
     if is_source:
       while True:
         if fault_round is not None and expect_pulls == fault_round:
@@ -479,6 +505,9 @@ def judge_driver(plan, res):
             st["insufficient_fired"] += 1
           runs[j] += 1
           finished[j] = models[j].run(result)
+          if models[j].stale_undecided and finished[j] == {False} and \
+              runs[j] >= min_rep:
+            f9_hit = True
         if ambiguous:
           break
         if all(finished[j] == {True} for j in active):
@@ -498,6 +527,9 @@ def judge_driver(plan, res):
       st["ties"] += 1
       probe("near_tie_run_not_judged")
       continue
+    kn = F9 if f9_hit else None
+    if f9_hit:
+      probe("stale_undecided_subtest_absent_from_a_run")
     if faulted:
       st["source_faults_fired"] += 1
       probe("source_fault_fired")
@@ -510,7 +542,7 @@ def judge_driver(plan, res):
                        "Source pulled %d times before its fault, model %d" %
                        (len(ev.get("pulls") or []), expect_pulls)))
       continue
-    if "overrun" in ev:
+    if "overrun" in ev and not f9_hit:
       viol.append(_v("liveness", i, "overrun",
                      "TestSource still pulling after %d rounds; the model "
                      "finishes after %d" % (MAX_ROUNDS, expect_pulls)))
@@ -525,14 +557,14 @@ def judge_driver(plan, res):
                      "(one pull per round, until no test is undecided)" %
                      (len(ev["pulls"]), expect_pulls),
                      {"runs_model": runs,
-                      "runs_real": [len(c) for c in calls]}))
+                      "runs_real": [len(c) for c in calls]}, known=kn))
     for j in active:
       if len(calls[j]) != runs[j]:
         viol.append(_v("run_count", i, "test",
                        "test %s ran %d times, model predicts %d (finished "
                        "tests are not run again, unfinished ones once per "
                        "round)" % (op["tests"][j]["name"], len(calls[j]),
-                                   runs[j])))
+                                   runs[j]), known=kn))
       for k, c in enumerate(calls[j]):
         if c["params"] != op["tests"][j]["params"] or c["n"] != op["n"]:
           viol.append(_v("call_args", i, "args",
@@ -559,7 +591,8 @@ def judge_driver(plan, res):
                      (op["op"], ev["ret"], sorted(failed_adm)),
                      {"states": {op["tests"][j]["name"]:
                                  {k: sorted(v) for k, v in
-                                  models[j].states.items()} for j in active}}))
+                                  models[j].states.items()} for j in active}},
+                     known=kn))
     elif len(failed_adm) == 2:
       st["ties"] += 1
     st["trajectories"].add(repr([(j, runs[j], sorted(
@@ -596,10 +629,12 @@ def _compare_state(viol, i, k, m, s, fin, st, probe):
     viol.append(_v("substate", i, "extra", "unexpected sub-tests %s" %
                    sorted(extra)))
   if s["finished"] not in fin:
+    known = F9 if (m.stale_undecided and s["finished"] is True and
+                   m.runs >= m.min_rep) else None
     viol.append(_v("finished_flag", i, "finished",
                    "finished=%s after run %d, model %s (min_repetitions=%d, "
                    "states %s)" % (s["finished"], k + 1, sorted(fin),
-                                   m.min_rep, s["state"])))
+                                   m.min_rep, s["state"]), known=known))
   if s["ret"] is not s["finished"] and s["ret"] != s["finished"]:
     viol.append(_v("run_return", i, "ret", "Run returned %r but finished=%r" %
                    (s["ret"], s["finished"])))
@@ -649,17 +684,19 @@ def _gen_e2e(r, tier):
   else:
     gen = r.choice(GOOD)
     v = r.random()
-    if v < 0.10 and tier == "thorough":
-      prefix, n = None, 2**20
-    elif v < 0.25:
-      prefix, n = "LinearComplexity", 2**20
-    elif v < 0.35:
-      prefix, n = "ApproximateEntropy", 2**24
+    # measured: a full pass of all 24 tests costs 40 s at 2^20 and 60 s at
+    # 2^24 bits (FindBias dominates), every other prefix a few seconds
+    if v < 0.30:
+      prefix, n = None, r.choice([2**20, 2**21, 2**22, 2**23, 2**24])
     elif v < 0.45:
-      prefix, n = "FindBias", 2**20
+      prefix, n = "LinearComplexity", r.choice([2**20, 2**22, 2**23, 2**24])
+    elif v < 0.55:
+      prefix, n = "ApproximateEntropy", r.choice([2**20, 2**23, 2**24])
+    elif v < 0.60:
+      prefix, n = "FindBias", r.choice([2**20, 2**22])
     else:
       prefix = r.choice(CHEAP_PREFIXES)
-      n = r.choice([2**20, 2**20, 2**21, 2**22])
+      n = r.choice([2**20, 2**21, 2**22, 2**23, 2**24])
     op = {"op": "good", "gen": gen, "prefix": prefix, "n": n,
           "entry": r.choice(["source", "bitstring"]),
           "seeds": [r.getrandbits(40) | 1 for _ in range(8)]}
@@ -806,7 +843,19 @@ def execute(plan, timeout=None):
 
 
 def directed_plans(prop, profile):
-  return []
+  if profile != "driver":
+    return []
+  f9 = {"engine": "C", "property": PROPERTY, "profile": "driver",
+        "clock_seed": 9,
+        "ops": [{"op": "teststructure", "fail": 1e-9, "repeat": 0.01,
+                 "min_rep": 1,
+                 "test": {"name": "StubWalk", "params": [],
+                          "script": [{"named": [["excursion", 0.005],
+                                                ["walk", 0.5]]},
+                                     {"named": [["walk", 0.5]]},
+                                     {"named": [["excursion", 0.9],
+                                                ["walk", 0.5]]}]}}]}
+  return [("directed-F9", f9)]
 
 
 def _binom_tail(n, p, k):
